@@ -14,8 +14,8 @@ import (
 
 func init() {
 	fw.Register(&fw.Check{
-		ID: "C09",
-		Rule: "cases: the finite grid from in {absent, a} x until in {absent, a-5, a, a+5, a+D-1, a+D, a+D+1} x anchoring time t in {from-1, from, from+1, until-1, until, until+1, from+D-1, from+D, from+D+1} x {update, recover, deactivate} x D=MaxOperationTimeDelta in {0, 1, 600, 7200}, enumerated completely; each grid point executed through the real applier after a valid create and compared in full with the state model whose window predicate is the one-line statement; then each other numeric protocol limit (MaxDeltaSize, MaxOperationSize, MaxOperationHashLength, NonceSize, MaxOperationCount, MaxCasURILength, the four file-size limits, GenesisTime, MaxMemoryDecompressionFactor) is set to values bracketing the grid's times and the verdicts must not move; finally non-batch parsing with a recording time validator must hand over exactly (from, until'). distinct = distinct (type, D, from?, until class, t class, verdict).",
+		ID:          "C09",
+		Rule:        "cases: the finite grid from in {absent, a} x until in {absent, a-5, a, a+5, a+D-1, a+D, a+D+1} x anchoring time t in {from-1, from, from+1, until-1, until, until+1, from+D-1, from+D, from+D+1} x {update, recover, deactivate} x D=MaxOperationTimeDelta in {0, 1, 600, 7200}, enumerated completely; each grid point executed through the real applier after a valid create and compared in full with the state model whose window predicate is the one-line statement; then each other numeric protocol limit (MaxDeltaSize, MaxOperationSize, MaxOperationHashLength, NonceSize, MaxOperationCount, MaxCasURILength, the four file-size limits, GenesisTime, MaxMemoryDecompressionFactor) is set to values bracketing the grid's times and the verdicts must not move; finally non-batch parsing with a recording time validator must hand over exactly (from, until'). distinct = distinct (type, D, from?, until class, t class, verdict).",
 		Assumptions: []string{"harness state machine and patch model", "the window predicate of the statement"},
 		Exhaustive:  func(tier string) bool { return tier == "thorough" },
 		Require:     []string{"grid-points", "in-window", "out-of-window", "other-parameter-variations", "time-validator-calls", "applier-with-refusing-validator"},
@@ -191,7 +191,9 @@ func runC09(r *fw.Runner) {
 		r.Case("applier-ignores-time-validator", func(c *fw.Case) {
 			rv := &recValidator{err: operationparser.ErrOperationExpired}
 			old := histStackFactory
-			histStackFactory = func(p protocol.Protocol) *sut.Stack { return sut.NewStack(p, operationparser.WithAnchorTimeValidator(rv)) }
+			histStackFactory = func(p protocol.Protocol) *sut.Stack {
+				return sut.NewStack(p, operationparser.WithAnchorTimeValidator(rv))
+			}
 			defer func() { histStackFactory = old }()
 			grid := c09Grid(600)
 			for i := 0; i < 40; i++ {
